@@ -241,6 +241,115 @@ fn run() {
                     // replica stopped with an error its state is the one it had reached)
                     lines.push(format!("run_rep_sync {}", orders_in_sync(lines, "run_ord", "run_rep_ord") as u8));
                 }
+                "resnap" => {
+                    // CONFIGURATION SHAPE (cfg audit): a replica assembled from the snapshot of a RUNNING,
+                    // pre-populated engine - orders (also in flight), positions, prices, balances, trading
+                    // state as they are - whose sequence counter is > 0: `audit_snapshot` on the engine of
+                    // the case, a fresh `StateReplicaManager::new` on it; the following `ev`s feed it
+                    let w = world.as_mut().expect("init first");
+                    let snapshot = <TestEngine as Auditor<Audit>>::audit_snapshot(w.engine());
+                    lines.push(format!("seq {}", snapshot.context.sequence.value()));
+                    let rep: Replica = StateReplicaManager::new(snapshot, vec![].into_iter());
+                    lines.push(format!("rep_seq {}", rep.state_replica.context.sequence.value()));
+                    lines.push(format!("rep_start {}", rep.meta_start.sequence.value()));
+                    observe_any(w, rep.replica_engine_state(), "rep_", lines);
+                    lines.push(format!(
+                        "rep_rest_eq {}",
+                        if states_equal_but_orders(&w.built.engine.state, rep.replica_engine_state()) { 1 } else { 0 }
+                    ));
+                    replica = Some(rep);
+                }
+                "runtwo" => {
+                    // CONFIGURATION SHAPE (cfg audit): a SECOND run on the same engine. Fresh engine, the first
+                    // k events of the history through the runner (own snapshot, own channel, own replica), then
+                    // - whatever way that run ended - a second `audit_snapshot` of the same, now pre-populated
+                    // engine (sequence > 0), a new channel, the rest of the feed (everything the first run did
+                    // not consume) through the runner and a fresh replica on the second snapshot (optionally
+                    // through a transport fault)
+                    let mut w = init_world(&init_toks);
+                    let k: usize = op[2].parse::<usize>().expect("k").min(history.len());
+                    let tick_cell = w.built.engine.strategy.tick.clone();
+                    {
+                        let mut plan = w.built.engine.strategy.plan.borrow_mut();
+                        for (j, (_, a)) in history.iter().enumerate() {
+                            if let Some(a) = a {
+                                plan.insert(j as u64 + 1, a.clone());
+                            }
+                        }
+                    }
+                    let rt = tokio::runtime::Builder::new_current_thread().build().unwrap();
+                    let run_part = |w: &mut World, events: Vec<Event>, first_pos: u64| -> (Vec<Tick>, Audit) {
+                        let (tx, mut rx) = mpsc_unbounded::<Tick>();
+                        let mut audit_tx = ChannelTxDroppable::new(tx);
+                        // strategy output is planned per feed position of the WHOLE history
+                        tick_cell.set(first_pos);
+                        let cell = tick_cell.clone();
+                        let mut feed = events.into_iter().inspect(move |_| cell.set(cell.get() + 1));
+                        let last: Audit = if op[1] == "sync" {
+                            sync_run_with_audit(&mut feed, &mut w.built.engine, &mut audit_tx)
+                        } else {
+                            let mut stream = futures::stream::iter(feed);
+                            rt.block_on(async_run_with_audit(&mut stream, &mut w.built.engine, &mut audit_tx))
+                        };
+                        drop(audit_tx);
+                        let mut ticks: Vec<Tick> = vec![];
+                        while let Ok(t) = rx.rx.try_recv() {
+                            ticks.push(t);
+                        }
+                        (ticks, last)
+                    };
+                    let last_kind = |last: &Audit| match last {
+                        EngineAudit::FeedEnded => "feed-ended",
+                        EngineAudit::Process(p) if !p.errors.is_empty() => "fatal",
+                        EngineAudit::Process(p) if matches!(p.event, EngineEvent::Shutdown(_)) => "shutdown",
+                        _ => "other",
+                    };
+                    let seqs = |ticks: &[Tick]| ticks.iter().map(|t| t.context.sequence.value().to_string()).collect::<Vec<_>>().join(" ");
+                    // run 1
+                    let snapshot1 = <TestEngine as Auditor<Audit>>::audit_snapshot(w.engine());
+                    let events1: Vec<Event> = history[..k].iter().map(|(e, _)| e.clone()).collect();
+                    let (ticks1, last1) = run_part(&mut w, events1, 0);
+                    let consumed1 = ticks1.iter().filter(|t| matches!(t.event, EngineAudit::Process(_))).count();
+                    lines.push(format!("run1_seqs {}", seqs(&ticks1)));
+                    lines.push(format!("run1_last {}", last_kind(&last1)));
+                    let mut rep1: Replica = StateReplicaManager::new(snapshot1, ticks1.into_iter());
+                    lines.push(format!("run1_rep {}", if rep1.run().is_ok() { "ok" } else { "err" }));
+                    lines.push(format!(
+                        "run1_rep_rest_eq {}",
+                        if states_equal_but_orders(&w.built.engine.state, rep1.replica_engine_state()) { 1 } else { 0 }
+                    ));
+                    // run 2: snapshot of the engine as run 1 left it
+                    let snapshot2 = <TestEngine as Auditor<Audit>>::audit_snapshot(w.engine());
+                    lines.push(format!("snap2_seq {}", snapshot2.context.sequence.value()));
+                    // the second run goes on with the rest of the SAME feed: whatever the first run did not
+                    // consume (it consumed one event per `Process` record)
+                    let c1 = consumed1.min(history.len());
+                    let events2: Vec<Event> = history[c1..].iter().map(|(e, _)| e.clone()).collect();
+                    let (mut ticks, last) = run_part(&mut w, events2, c1 as u64);
+                    lines.push(format!("run_seqs {}", seqs(&ticks)));
+                    lines.push(format!(
+                        "run_terminal {}",
+                        ticks.iter().map(|t| if t.event.is_terminal() { "1" } else { "0" }).collect::<Vec<_>>().join(" ")
+                    ));
+                    lines.push(format!("run_last {}", last_kind(&last)));
+                    for t in ticks.iter() {
+                        lines.push(format!("run_ev {}", tick_digest(&w, t)));
+                    }
+                    let fault = op.get(3).map(|m| mutate_stream(m, &mut ticks));
+                    let mut rep: Replica = StateReplicaManager::new(snapshot2, ticks.into_iter());
+                    let res = rep.run();
+                    lines.push(format!("run_rep {}", if res.is_ok() { "ok" } else { "err" }));
+                    lines.push(format!("run_rep_seq {}", rep.state_replica.context.sequence.value()));
+                    observe_any(&w, &w.built.engine.state, "run_", lines);
+                    observe_any(&w, rep.replica_engine_state(), "run_rep_", lines);
+                    if !matches!(fault, Some(Fault::Loses)) {
+                        lines.push(format!(
+                            "run_rep_rest_eq {}",
+                            if states_equal_but_orders(&w.built.engine.state, rep.replica_engine_state()) { 1 } else { 0 }
+                        ));
+                    }
+                    lines.push(format!("run_rep_sync {}", orders_in_sync(lines, "run_ord", "run_rep_ord") as u8));
+                }
                 other => panic!("bad op {other}"),
             }
         }
@@ -718,6 +827,147 @@ fn gen_directed(out: &mut Out) {
     }
 }
 
+/// CONFIGURATION-SHAPE family (cfg audit): the replica is assembled from the snapshot of a RUNNING engine.
+/// (a) `resnap` = `audit_snapshot` of the case's engine after some history - orders confirmed and in
+/// flight, positions, prices, a balance, trading on or off, sequence counter > 0 - and a fresh replica on
+/// it, fed by the following records (also old records from before the snapshot: skipped; `rep_at 0` on a
+/// snapshot whose number is not 0), one to three times per case, also twice in a row and as the very first
+/// / very last op; (b) `runtwo <runner> <k> [fault]` = a second run on the same engine: events 0..k
+/// through the runner, then a second snapshot, a new channel and the rest through the runner into a fresh
+/// replica (k = 0: the first run is the empty run; k = len: the second one is; a terminal event inside
+/// the first part: the second run starts on an engine that was shut down).
+fn gen_cfg(rng: &mut Rng, out: &mut Out, tier: &str) {
+    let nex = rng.range(1, 3) as usize;
+    let links: String = (0..nex).map(|_| if rng.chance(80) { 'H' } else { ['C', 'M', 'U'][rng.below(3) as usize] }).collect();
+    let mut defs: Vec<(usize, usize, usize)> = (0..nex).map(|e| (e, rng.below(3) as usize, 3)).collect();
+    for _ in 0..rng.below(3) {
+        defs.push((rng.below(nex as u64) as usize, rng.below(3) as usize, 3));
+    }
+    for k in (1..defs.len()).rev() {
+        let j = rng.below(k as u64 + 1) as usize;
+        defs.swap(k, j);
+    }
+    let nins = defs.len();
+    out.line(format!(
+        "init {} L {links} I {}",
+        if rng.chance(60) { "on" } else { "off" },
+        defs.iter().map(|(e, b, q)| format!("{e},{b},{q}")).collect::<Vec<_>>().join(" ")
+    ));
+    let len = rng.range(2, if tier == "thorough" { 30 } else { 16 }) as u64;
+    // where the snapshots are taken: after `at` events (0 = of the fresh engine, len = after everything)
+    let mut snaps: Vec<u64> = (0..rng.range(1, 3)).map(|_| rng.below(len + 1)).collect();
+    if rng.chance(15) {
+        let d = snaps[0];
+        snaps.push(d);
+    }
+    let mut has_pos = vec![false; nins];
+    let mut next_cid = 10u64;
+    let mut known: Vec<(usize, u64)> = vec![];
+    let mut nev = 0u64;
+    for step in 0..=len {
+        for _ in snaps.iter().filter(|a| **a == step) {
+            out.line("resnap");
+            if rng.chance(35) {
+                out.line(match rng.below(5) {
+                    0 => "rep_dup".to_string(),
+                    1 => "rep_gap".to_string(),
+                    2 => format!("rep_old {}", rng.below(nev + 1)),
+                    3 => "rep_at 0".to_string(),
+                    _ => format!("rep_at {}", rng.below(nev + 3)),
+                });
+            }
+        }
+        if step == len {
+            break;
+        }
+        let mut created_now: Vec<(usize, u64)> = vec![];
+        if rng.chance(50) {
+            let mut reqs: Vec<String> = vec![];
+            if !known.is_empty() && rng.chance(35) {
+                let (ins, cid) = *rng.pick(&known);
+                reqs.push(format!("c:{}:{ins}:{cid}", defs[ins].0));
+            }
+            for _ in 0..rng.range(1, 2) {
+                let ins = rng.below(nins as u64) as usize;
+                next_cid += 1;
+                created_now.push((ins, next_cid));
+                reqs.push(format!(
+                    "o:{}:{ins}:{next_cid}:{}:{}:{}",
+                    defs[ins].0,
+                    if rng.chance(50) { "B" } else { "S" },
+                    rng.pick(&["100", "99.5", "101"]),
+                    rng.pick(&["10", "1", "0.5"])
+                ));
+            }
+            out.line(format!("algo {}", reqs.join(" ")));
+        }
+        let i = rng.below(nins as u64) as usize;
+        let line = match rng.below(100) {
+            0..=9 => {
+                next_cid += 1;
+                created_now.push((i, next_cid));
+                format!("ev cmd_open o:{}:{i}:{next_cid}:B:100:10", defs[i].0)
+            }
+            10..=15 if !known.is_empty() => {
+                let (ins, cid) = *rng.pick(&known);
+                format!("ev cmd_cancel c:{}:{ins}:{cid}", defs[ins].0)
+            }
+            16..=25 => format!("ev trading {}", if rng.chance(55) { "on" } else { "off" }),
+            26..=47 if !known.is_empty() => {
+                let (ins, cid) = if rng.chance(50) { known[0] } else { *rng.pick(&known) };
+                format!("ev snap {ins} {cid} 10 100 O {} {} {}", 1 + rng.below(2), rng.below(6), rng.pick(&[0, 5, 10]))
+            }
+            48..=52 if !known.is_empty() => {
+                let (ins, cid) = *rng.pick(&known);
+                format!("ev snap {ins} {cid} 10 100 X 0 0 0")
+            }
+            53..=60 if !known.is_empty() => {
+                let (ins, cid) = *rng.pick(&known);
+                format!("ev resp {ins} {cid} {}", if rng.chance(50) { "ok" } else { "err" })
+            }
+            61..=63 => "ev shutdown".into(),
+            64..=68 => format!("ev cancel_orders {}", gen_filter(rng, "none".into(), nex, nins)),
+            69..=72 => format!("ev close_positions {}", gen_filter(rng, format!("ins:{i}"), nex, nins)),
+            73..=84 => {
+                if has_pos[i] && rng.chance(40) {
+                    format!("ev reduce {i}")
+                } else if has_pos[i] {
+                    has_pos[i] = false;
+                    format!("ev flat {i}")
+                } else {
+                    has_pos[i] = true;
+                    format!("ev fill {i} {} {}", if rng.chance(50) { "B" } else { "S" }, rng.pick(&["1", "2", "0.5"]))
+                }
+            }
+            85..=92 => format!("ev other {} {}", rng.pick(&["mktre", "accre", "bal"]), rng.below(nex as u64)),
+            _ => format!("ev price {i} {}", rng.pick(&["100", "101", "99.5"])),
+        };
+        out.line(line);
+        nev += 1;
+        known.append(&mut created_now);
+        if rng.chance(6) {
+            out.line(if rng.chance(50) { "rep_dup" } else { "rep_gap" });
+        }
+    }
+    for _ in 0..rng.range(1, 2) {
+        let runner = if rng.chance(50) { "sync" } else { "async" };
+        let k = match rng.below(6) {
+            0 => 0,
+            1 => len,
+            2 => len + 2,
+            _ => rng.below(len + 1),
+        };
+        if rng.chance(35) {
+            out.line(format!("runtwo {runner} {k} {}", rng.pick(&FAULTS)));
+        } else {
+            out.line(format!("runtwo {runner} {k}"));
+        }
+    }
+    if rng.chance(25) {
+        out.line(format!("runall {}", if rng.chance(50) { "sync" } else { "async" }));
+    }
+}
+
 fn generate(seed: u64, n_cases: usize, tier: &str) {
     let mut out = Out::new();
     let mut rng = Rng::new(seed);
@@ -736,6 +986,12 @@ fn generate(seed: u64, n_cases: usize, tier: &str) {
     for id in 0..(if tier == "thorough" { 12 } else { 2 }) {
         out.case(format!("l{id}"));
         gen_wide(&mut lrng, &mut out, tier, true);
+    }
+    // configuration-shape family (cfg audit), seeded apart: everything above stays what it was
+    let mut crng = Rng::new(seed ^ 0xCF61_0C10);
+    for id in 0..n_cases / 4 {
+        out.case(format!("cfg{id}"));
+        gen_cfg(&mut crng, &mut out, tier);
     }
     out.flush();
 }
